@@ -96,6 +96,8 @@ def _check(args):
     total_w = sum(int(np.prod([width[v] for v in part])) for part in numeric_parts if part)
     df, nlev = make_data(rng, factors, total_w)
     text = "y ~ " + ("" if case["icpt"] else "0 + ") + " + ".join(":".join(wr.get(f, f) for f in t) for t in terms)
+    if case.get("text"):
+        text = case["text"]  # the same family spelled with operators (/, *, : over sums): terms share components
     st, dm = design.build(text, df)
     base = {"formula": text, "levels": nlev, "n": len(df), "variant": variant}
     sig_extra = {"impl_status": case["impl_status"], "impl_exact": case["impl_exact"], "order_mismatch": bool(case.get("order_mismatch"))}
@@ -130,7 +132,11 @@ def _check(args):
         rxb, c3 = rank.rank_float(np.column_stack([x, b]))
         if not (c1 and c2 and c3):
             return None, ("unclear", "")
-    base.update(ncol=int(x.shape[1]), rank=int(rx), rank_basis=int(rb), rank_joint=int(rxb), dim_abs=int(want), labels=list(dm.common.as_dataframe().columns))
+    try:
+        labels = list(dm.common.as_dataframe().columns)
+    except Exception as e:  # pylint: disable=broad-except
+        labels = "as_dataframe failed: " + str(e)[:80]
+    base.update(ncol=int(x.shape[1]), rank=int(rx), rank_basis=int(rb), rank_joint=int(rxb), dim_abs=int(want), labels=labels)
     if rb != want:
         # the atom theory (or the data) is off: machinery problem, never a verdict
         return ({"clause": "HARNESS_atom_dimension_mismatch", **sig_extra}, base), ("harness", "")
@@ -251,6 +257,48 @@ def pick_traces(rep, n, seed):
         shutil.rmtree(tmp, ignore_errors=True)
 
 
+OPERATOR_FORMS = [
+    "f/g", "f/x", "x/f", "f/g/h", "f:(g + h)", "(f + g):h", "f/(g + h)", "f:g/h", "(f + g)/h", "f*x", "x*f", "f*g", "g*f",
+    "f/g + h", "h + f/g", "f:(g + x)", "(f + x):g", "f/(g + x)", "x/(f + g)", "f*g - f", "f*g - g", "f/g + g", "(f + g + h)**2 - f:g - f:h",
+    "f*x - x", "f/g:h", "f + f:(g + h)", "(f + g):(f + h)", "(f + g)**2", "f/x + g",
+]
+
+
+def operator_forms(rep, cases, seed):
+    """Families written with operators: '/', '*' and ':' over sums build several terms from the same
+    component objects; the coding must still be decided per term."""
+    from formulae import model_description
+
+    table = {}
+    for c in cases:
+        table[(frozenset(frozenset(t) for t in c["terms"]), bool(c["icpt"]))] = c
+    jobs = []
+    for form in OPERATOR_FORMS:
+        for pre in ("", "0 + "):
+            text = "y ~ " + pre + form
+            md = model_description(text)
+            terms = [[str(c.name) for c in t.components] for t in md.common_terms if hasattr(t, "components")]
+            icpt = any(type(t).__name__ == "Intercept" for t in md.common_terms)
+            key = (frozenset(frozenset(t) for t in terms), icpt)
+            if key not in table or len(key[0]) != len(terms):
+                rep.count("operator_forms_outside_the_enumerated_families")
+                continue
+            base = table[key]
+            case = dict(base, terms=terms, text=text)
+            for rep_i in range(3):
+                jobs.append((case, seed + rep_i, "plain", False))
+    results = common.pool_map(_check, jobs)
+    for (c, _, v, _), (prob, (kind, detail)) in zip(jobs, results):
+        rep.cov["evaluations"] += 1
+        rep.nontrivial_key("O:" + c["text"])
+        if prob is not None:
+            sig, case = prob
+            if sig["clause"].startswith("HARNESS"):
+                raise RuntimeError("atom theory / data generation mismatch: " + repr(case)[:600])
+            rep.violation(dict(sig, spelled_with_operators=True), case)
+    rep.count("operator_forms", len(jobs))
+
+
 def main(tier, seed):
     common.use_repo()
     rep = Report("C03", tier, seed)
@@ -272,13 +320,19 @@ def main(tier, seed):
         replay(rep, cases, seed, ["plain"], sample=2500)
         replay(rep, cases, seed + 1, ["C", "TS", "num", "spline"], shuffle=True, sample=250)
         sw = export_families(rep, "FactorsDef5", 3, 2, extra="SwapExtra")
-        replay(rep, sw, seed + 2, ["plain"], sample=600)
+        sw3 = [c for c in sw if any(len(t) == 3 for t in c["terms"])]
+        sw = sw3 + [c for c in sw if c not in sw3][: max(0, 1500 - len(sw3))] if len(sw3) < 1500 else sw
+        replay(rep, sw, seed + 2, ["plain"], sample=500)
+        replay(rep, sw, seed + 4, ["plain"], shuffle=True, sample=500)   # random factor order inside every term
+        operator_forms(rep, cases, seed)
         pick_traces(rep, 400, seed)
     else:
         replay(rep, cases, seed, ["plain"])
         replay(rep, cases, seed + 1, ["C", "TS", "num", "spline"], shuffle=True, sample=4000)
         sw = export_families(rep, "FactorsDef5", 3, 3, extra="SwapExtra", timeout=6000)
         replay(rep, sw, seed + 2, ["plain"], sample=20000)
+        replay(rep, sw, seed + 4, ["plain"], shuffle=True, sample=20000)
+        operator_forms(rep, cases, seed)
         c4 = export_families(rep, "FactorsCat4", 4, 4, timeout=6000)
         replay(rep, c4, seed + 3, ["plain"], sample=20000)
         pick_traces(rep, 8000, seed)
